@@ -189,6 +189,16 @@ example :
     exprSearch (formatEndpoint "GET".toList (render P)) "GET:::apixcom/users/7".toList = false := by
   decide
 
+/-- host-only pattern (empty path): `api.com` is registered as `GET:::api\.com$` and found for the URL
+    `api.com`; upper-case hosts are different literals for the expression (and for the engine's trie). -/
+example :
+    let P := pat ["api", "com"] []
+    safe P = true ∧ «matches» P P = true ∧ urlWF P = true ∧
+    formatEndpoint "GET".toList (render P) = "GET:::api\\.com$".toList ∧
+    exprSearch (formatEndpoint "GET".toList (render P)) "GET:::api.com".toList = true ∧
+    exprSearch (formatEndpoint "GET".toList (render P)) "GET:::API.com".toList = false := by
+  decide
+
 /-- `c14_holds_partial` speaks about non-trivial configurations: its hypothesis on the selection is
     satisfiable, the proxy's verdict differs between requests, and the judge's verdict on them computes. -/
 example :
